@@ -126,15 +126,17 @@ impl Runner<'_> {
 
     fn begin(&mut self, cmd: &str, extra: Value) -> u32 {
         self.nproc += 1;
+        // a command issued through a pre-loaded handle logs its operations under that handle's number
+        let proc_ = extra.get("handle").and_then(Value::as_u64).map_or(self.nproc, |h| 1000 + h as u32);
         let now = self.w.now();
-        let mut ev = json!({"e":"begin","cmd":cmd,"proc":self.nproc,"now":now});
+        let mut ev = json!({"e":"begin","cmd":cmd,"proc":proc_,"now":now});
         if let Some(m) = extra.as_object() {
             for (k, v) in m {
                 ev[k] = v.clone();
             }
         }
         self.w.emit(self.out, ev);
-        self.nproc
+        proc_
     }
 
     fn end<T>(&mut self, proc_: u32, res: &Outcome<T>) {
@@ -163,7 +165,11 @@ impl Runner<'_> {
                 let src = source_from(&st["files"], self.seed, self.chunk);
                 let dry = st.get("dry").and_then(Value::as_bool).unwrap_or(false);
                 let fail_at = st.get("fail_at").and_then(Value::as_u64);
-                let p = self.begin("backup", json!({"dry":dry,"faulted":fail_at.is_some(),"stale":st.get("h").is_some()}));
+                let mut bx = json!({"dry":dry,"faulted":fail_at.is_some(),"stale":st.get("h").is_some()});
+                if let Some(hno) = st.get("h") {
+                    bx["handle"] = hno.clone();
+                }
+                let p = self.begin("backup", bx);
                 let opts = BackupOptions::default().dry_run(dry);
                 let t = 1_000_000 + i64::from(p) * 60;
                 let res = if let Some(hno) = st.get("h").and_then(Value::as_u64) {
@@ -368,7 +374,22 @@ pub fn run_program(prog: &Value, out: &mut Out) {
     let h = w.store.handle(0);
     let copts = config_opts(&cfg);
     w.emit(out, json!({"e":"reset","id":id,"cfg":cfg,"prog":prog}));
-    let init = scn::guard(|| scn::init(&h, &key, &copts));
+    let init = scn::guard(|| {
+        if cfg.get("version").and_then(Value::as_u64) == Some(1) {
+            // version-1 repositories cannot be created through ConfigOptions (no downgrade): build the config file
+            let mut c = rustic_core::repofile::ConfigFile::new(1, rustic_core::Id::random().into(), 0x3DA3_358B_4DC1_73);
+            let mut o = copts;
+            o.set_version = None;
+            o.apply(&mut c)?;
+            rustic_core::Repository::new(&scn::repo_opts(), &scn::backends(h.clone().arc(), None))?.init_with_config(
+                &rustic_core::Credentials::Masterkey(key.clone()),
+                &rustic_core::KeyOptions::default(),
+                c,
+            )
+        } else {
+            scn::init(&h, &key, &copts)
+        }
+    });
     w.flush_ops(out, false);
     if !init.is_ok() {
         w.emit(out, json!({"e":"end","proc":0,"res":init.class(),"msg":init.msg()}));
